@@ -836,6 +836,13 @@ def check_heat(case):
                 vio.append((key("mesh-coords"), "cell edges %r / %r do not "
                             "enclose the coordinates" % (xe.tolist(),
                                                          ye.tolist())))
+            elif not np.allclose([(xe[i] + xe[i + 1]) / 2 for i in range(nx)],
+                                 xs) or not np.allclose(
+                    [(ye[i] + ye[i + 1]) / 2 for i in range(ny)], ys):
+                # (equally spaced coordinates: each cell is centred on its own)
+                vio.append((key("mesh-centres"), "cells with edges %r / %r "
+                            "are not centred on the coordinates %r / %r" % (
+                                xe.tolist(), ye.tolist(), xs, ys)))
     return fin(case, vio, nr * nq >= 2 or True)
 
 
